@@ -45,6 +45,7 @@ def main(argv=None):
     ap.add_argument("prop")
     ap.add_argument("--tier", default=os.environ.get("VERIF_TIER", "quick"), choices=["quick", "thorough"])
     ap.add_argument("--relock", action="store_true", help="rewrite the lock entry of this property from this run (only on a green run)")
+    ap.add_argument("--relock-static", action="store_true", help="rewrite the lock entry from the obligation ids declared in contracts/ (no verification run)")
     ap.add_argument("--replay", help="re-run the replay recorded in the given file")
     ap.add_argument("--only", help="comma list of harness/function name substrings (debugging; never passes the lock check)")
     ap.add_argument("--jobs", type=int, default=int(os.environ.get("VERIF_JOBS", "16")))
@@ -55,6 +56,16 @@ def main(argv=None):
     t0 = time.time()
     if a.replay:
         return R.replay_file(a.replay)
+    if a.relock_static:
+        contracts = K.load_contracts()
+        ids = [o["id"] for c in contracts for o in c.obligations if prop in o["props"] and tier_ok(o, a.tier)]
+        for u in V.units_for(prop, a.tier):
+            ids += ["%s/V/%s/%s" % (u.props[0], u.name, f["path"].split("::")[-1]) for f in u.fns if f.get("mode", "verify") == "verify"]
+        lock = load_json(LOCK, {})
+        lock.setdefault(prop, {})[a.tier] = sorted(ids)
+        write_json(LOCK, lock)
+        print("lock %s/%s = %d obligations (static)" % (prop, a.tier, len(ids)))
+        return 0
     scratch = None
     try:
         result = decide(prop, a.tier, a.jobs, a.only, a.relock, seed, t0)
@@ -123,11 +134,21 @@ def decide(prop, tier, jobs, only, relock, seed, t0):
                 raise Undecided("cargo kani produced no harness results (rc=%s): %s" % (rc, K.compile_errors(out)))
             for o in kobs:
                 results[o["id"]] = K.classify(o, parsed.get(o["harness"]))
-            # counterexamples for failed obligations
+            # counterexamples for failed obligations, replayed natively against the real code
+            native = {}
+
+            def native_exe():
+                if "exe" not in native:
+                    log("[replay] building the crate natively with --cfg verif_replay")
+                    native["exe"], native["err"] = R.build_native(scratch)
+                return native["exe"], native.get("err", "")
+
             for o in kobs:
                 r = results[o["id"]]
                 if r["status"] == "failed":
-                    r["replay"] = R.kani_counterexample(scratch, o, r, hto)
+                    log("[replay] extracting Kani's counterexample for %s" % o["harness"])
+                    r["replay"] = R.kani_counterexample(scratch, o, r, min(hto, 900), native_exe)
+                    log("[replay]   native result: %s" % r["replay"].get("native_result", r["replay"].get("why")))
         # ---------------- verdict ----------------
         return verdict(prop, tier, seed, t0, results, kobs, vunits, meta, lock, findings, relock, bool(only), scratch)
     finally:
